@@ -39,4 +39,28 @@ theorem leg_2reg_formOkG (ctx : Spec.X86.Ctx) (rule : Rule) (p : Parsed) (mb : B
     exact ⟨⟨hw, by simpa using c66, by simpa using cF3, by simpa using cF2, cF0, c9B, by omega, by simpa using ccont⟩,
       by rcases hmk with h | h <;> omega⟩
 
+/-- legacy shape [rm, imm8] with an opcode-extension digit in ModRM.reg (`/d ib`), arbitrary register kind -/
+theorem leg_rm_imm8_formOkG (ctx : Spec.X86.Ctx) (rule : Rule) (p : Parsed) (mb : BitVec 8) (bytes : List (BitVec 8)) (pp d : Nat)
+    (ka : RegKind) (fa f3 : FormOp) (ia : Nat) (v : BitVec 64)
+    (hmode : ((if ctx.mode64 then rule.modes &&& 2 else rule.modes &&& 1) != 0) = true)
+    (R : LegRuleD rule 1 pp d) (hd : d < 8) (hdig : bits mb 3 3 = d)
+    (hra : fa.role = .rm) (hf3 : f3.role = .imm) (hib : immBitsOf f3 = 8) (hsg : (immSignOf f3 == 1) = false)
+    (himmp : p.imm = [BitVec.ofNat 8 v.toNat])
+    (hreg : regOkB ka ia (regNum false p.B (bits mb 0 3)) p = true)
+    (hal : alignOps rule.oszEff rule.ops [.reg ka ia, .imm v] = some [(fa, some (.reg ka ia)), (f3, some (.imm v))])
+    (hparse : parse ctx.mode64 rule bytes = .ok p) (P : LegParsed rule p mb pp) :
+    formOk ctx rule [.reg ka ia, .imm v] {} bytes = true := by
+  obtain ⟨hvk, hpfx, hmodrm, hmod, hop, hw, hR'⟩ := P
+  obtain ⟨hmodes, hs, hpp8, h66, hF3, hF2, hpplt, hri, hmk, hmr, hmrm, himm, hrel, hmoff, ha67, hrev⟩ := R
+  obtain ⟨c66, cF3, cF2, cF0, c9B, c67, cseg, ccont⟩ := count_ppBytes pp hpplt
+  have hleg : isLegacySpace rule = true := by simp [isLegacySpace, hs]
+  simp only [formOk, conds, hal, hparse, hmode]
+  simp only [allOk_cons, allOk_append, decorConds, headConds, prefixConds, modrmConds, operandConds, opConds, tailConds, hra, hf3, hib, hsg, himmp, immBytesOf, hrev,
+    Bool.false_and, Bool.false_eq_true, ↓reduceIte,
+    allOk_regConds, allOk_nil, memOperandOf, implMemOf, usesVvvv, memDestOf,
+    hasBcst, hleg, hri, hmodrm, hpfx, hvk, c66, cF3, cF2, cF0, c9B, c67, cseg, ccont, h66, hF3, hF2, hR']
+  simp [hop, hreg, hmod, hmr, hmrm, hs, hpp8, ha67, allOk, leBytes, hdig]
+  exact ⟨⟨hw, by simpa using c66, by simpa using cF3, by simpa using cF2, cF0, c9B, by omega, by simpa using ccont⟩,
+    by rcases hmk with h | h <;> omega⟩
+
 end AsmjitVerif.Lemmas.X86Parse
